@@ -9,9 +9,12 @@ package rules
 // A pass-through recorder between the tree and routeImpl.Matches notes, for every
 // matcher call, the keys and values the tree handed over and the real matcher's
 // answer.  Observation per request: the calls, the selected rule (or none /
-// panic) and URL.Captures after the real ruleImpl.Execute.  The answers of the
-// real glob / regex engines on the (pattern, value) pairs of the case are recorded
-// as oracle data.
+// panic) and URL.Captures as the PIPELINE sees them (snapshot taken by the stub
+// authenticator inside the real ruleImpl.Execute; after Execute if the pipeline was
+// not reached).  The answers of the glob / regex LIBRARIES (gobwas/glob, regexp, called
+// directly - not through heimdall's typed matchers - with the documented separators) on
+// the (pattern, value) pairs of the case are recorded as oracle data; the candidate values are
+// produced by the driver's own percent-decoder, not by heimdall's unescape.
 
 import (
 	"bufio"
@@ -20,11 +23,13 @@ import (
 	"fmt"
 	"net/http"
 	"net/url"
+	"regexp"
 	"sort"
 	"strings"
 	"testing"
 
 	envoy_auth "github.com/envoyproxy/go-control-plane/envoy/service/auth/v3"
+	"github.com/gobwas/glob"
 	"github.com/rs/zerolog"
 
 	"github.com/dadrus/heimdall/internal/config"
@@ -46,10 +51,20 @@ import (
 
 type c03Authn struct{}
 
+// what the pipeline saw of the request currently being served (set by the authenticator)
+var c03Seen *[][2]string //nolint:gochecknoglobals
+
 func (m *c03Authn) ID() string                     { return "a" }
 func (m *c03Authn) IsFallbackOnErrorAllowed() bool { return false }
 func (m *c03Authn) ContinueOnError() bool          { return false }
-func (m *c03Authn) Execute(heimdall.Context) (*subject.Subject, error) {
+func (m *c03Authn) Execute(ctx heimdall.Context) (*subject.Subject, error) {
+	seen := [][2]string{}
+	for k, v := range ctx.Request().URL.Captures {
+		seen = append(seen, [2]string{k, v})
+	}
+
+	c03Seen = &seen
+
 	return &subject.Subject{ID: "x"}, nil
 }
 func (m *c03Authn) WithConfig(map[string]any) (authenticators.Authenticator, error) { return m, nil }
@@ -194,16 +209,9 @@ func (r *c03RecRoute) Matches(ctx heimdall.Context, keys, values []string) (res 
 
 // ---- request contexts ----------------------------------------------------------------
 
-// the view is created once per request, as the HTTP context does (the Envoy context
-// rebuilds it on every call, which is finding C13-F1 and not the subject here)
-type c03Ctx struct {
-	heimdall.Context
-	req *heimdall.Request
-}
-
-func (c *c03Ctx) Request() *heimdall.Request { return c.req }
-
-func c03Context(q c03Req) (*c03Ctx, bool) {
+// the real request contexts, used as they are: FindRule, Execute and the pipeline each call
+// ctx.Request() themselves, so a context that hands out a fresh view per call loses the captures
+func c03Context(q c03Req) (heimdall.Context, bool) {
 	switch q.Style {
 	case "envoy":
 		hr := &envoy_auth.AttributeContext_HttpRequest{Method: q.Method, Scheme: q.Scheme, Host: q.Host, Path: q.Target}
@@ -211,7 +219,7 @@ func c03Context(q c03Req) (*c03Ctx, bool) {
 			Attributes: &envoy_auth.AttributeContext{Request: &envoy_auth.AttributeContext_Request{Http: hr}},
 		})
 
-		return &c03Ctx{Context: rc, req: rc.Request()}, true
+		return rc, true
 	case "fwd":
 		raw := "GET /decision HTTP/1.1\r\nHost: heimdall.local\r\nX-Forwarded-Method: " + q.Method +
 			"\r\nX-Forwarded-Proto: " + q.Scheme + "\r\nX-Forwarded-Host: " + q.Host +
@@ -226,9 +234,7 @@ func c03Context(q c03Req) (*c03Ctx, bool) {
 			return nil, false
 		}
 
-		rc := requestcontext.New(hr)
-
-		return &c03Ctx{Context: rc, req: rc.Request()}, true
+		return requestcontext.New(hr), true
 	default:
 		raw := q.Method + " " + q.Target + " HTTP/1.1\r\nHost: " + q.Host + "\r\nX-Forwarded-Proto: " + q.Scheme + "\r\n\r\n"
 
@@ -237,9 +243,7 @@ func c03Context(q c03Req) (*c03Ctx, bool) {
 			return nil, false
 		}
 
-		rc := requestcontext.New(hr)
-
-		return &c03Ctx{Context: rc, req: rc.Request()}, true
+		return requestcontext.New(hr), true
 	}
 }
 
@@ -258,22 +262,69 @@ func c03Slash(s string) config2.EncodedSlashesHandling {
 	return ""
 }
 
-func c03Compile(host bool, tm c03TM) (typedMatcher, bool) {
-	var (
-		m   typedMatcher
-		err error
-	)
-
+// the engines themselves, not heimdall's wrappers around them: gobwas/glob with the documented
+// separator ('.' for hosts, '/' for path parameters) and Go's regexp (unanchored MatchString)
+func c03Compile(host bool, tm c03TM) (func(string) bool, bool) {
 	switch tm.Type {
 	case "glob":
-		m, err = newGlobMatcher(tm.Value, map[bool]rune{true: '.', false: '/'}[host])
+		g, err := glob.Compile(tm.Value, map[bool]rune{true: '.', false: '/'}[host])
+		if err != nil {
+			return nil, false
+		}
+
+		return g.Match, true
 	case "regex":
-		m, err = newRegexMatcher(tm.Value)
+		re, err := regexp.Compile(tm.Value)
+		if err != nil {
+			return nil, false
+		}
+
+		return re.MatchString, true
 	default:
 		return nil, false
 	}
+}
 
-	return m, err == nil
+// the driver's own percent-decoder: every valid %XX is decoded, except that an encoded slash is kept
+// in the canonical spelling %2F when keep is set; ok=false if the text is not validly encoded
+func c03Decode(s string, keep bool) (string, bool) {
+	var sb strings.Builder
+
+	hex := func(c byte) int {
+		switch {
+		case c >= '0' && c <= '9':
+			return int(c - '0')
+		case c >= 'A' && c <= 'F':
+			return int(c-'A') + 10
+		case c >= 'a' && c <= 'f':
+			return int(c-'a') + 10
+		}
+
+		return -1
+	}
+
+	for i := 0; i < len(s); i++ {
+		if s[i] != '%' {
+			sb.WriteByte(s[i])
+
+			continue
+		}
+
+		if i+2 >= len(s) || hex(s[i+1]) < 0 || hex(s[i+2]) < 0 {
+			return "", false
+		}
+
+		b := byte(hex(s[i+1])<<4 | hex(s[i+2]))
+		if b == '/' && keep {
+			sb.WriteString("%2F")
+		} else {
+			sb.WriteByte(b)
+		}
+
+		i += 2
+	}
+
+	return sb.String(), true
 }
 
 // candidate values a path-parameter expression can be asked about: every segment
@@ -282,10 +333,15 @@ func c03Candidates(lp string) []string {
 	var out []string
 
 	add := func(s string) {
-		out = append(out, s)
-		d, _ := url.PathUnescape(s)
-		out = append(out, d)
-		out = append(out, unescape(s, config2.EncodedSlashesOnNoDecode))
+		out = append(out, s, "")
+
+		if d, ok := c03Decode(s, false); ok {
+			out = append(out, d)
+		}
+
+		if d, ok := c03Decode(s, true); ok {
+			out = append(out, d)
+		}
 	}
 
 	segs := strings.Split(lp, "/")
@@ -379,7 +435,7 @@ func c03Run(c c03Case) (obs c03Obs) {
 			}
 
 			seen[k] = true
-			obs.Oracle = append(obs.Oracle, c03Oracle{host, tm.Type, tm.Value, v, m.match(v)})
+			obs.Oracle = append(obs.Oracle, c03Oracle{host, tm.Type, tm.Value, v, m(v)})
 		}
 	}
 
@@ -432,6 +488,8 @@ func c03Run(c c03Case) (obs c03Obs) {
 			ro.Result = "rule"
 			fmt.Sscanf(found.ID(), "r%d", &ro.Rule)
 
+			c03Seen = nil
+
 			if _, err = found.Execute(ctx); err != nil {
 				if !errors.Is(err, heimdall.ErrArgument) {
 					panic(err)
@@ -440,8 +498,12 @@ func c03Run(c c03Case) (obs c03Obs) {
 				ro.Rejected = true
 			}
 
-			for k, v := range req.URL.Captures {
-				ro.Caps = append(ro.Caps, [2]string{k, v})
+			if c03Seen != nil { // what the pipeline saw
+				ro.Caps = *c03Seen
+			} else { // the pipeline was not reached (request refused for an encoded slash)
+				for k, v := range ctx.Request().URL.Captures {
+					ro.Caps = append(ro.Caps, [2]string{k, v})
+				}
 			}
 
 			sort.Slice(ro.Caps, func(i, j int) bool { return ro.Caps[i][0] < ro.Caps[j][0] })
@@ -549,12 +611,14 @@ func c03Coq(c c03Case, o c03Obs) string {
 
 var (
 	c03Lits      = []string{"a", "b", "ab", "ac", "x", "f", "a:b", `\:y`, `\*z`, `\\w`, "a*"}
-	c03WildNames = []string{"a", "b", "x", "id", "*"}
+	c03WildNames = []string{"a", "b", "x", "id", "*", "ID", "A"} // incl. names differing only by case
 	c03FreeNames = []string{"*", "c", "rest", "x"}
 	c03Vals      = []string{
 		"a", "b", "ab", "ac", "x", "1", "f", "c", "A", "a%2Fb", "a%2fb", "%41", "%61", "a%20b", "%5Bid%5D", "[id]",
 		"a%2F%2fb", "%2F", "a%2F", "%24x", "a%252Fb", "%C3%A9", ":y", "*z", "a:b", "a$b", "$$$escaped-slash$$$",
 		"%24$$escaped-slash$$$", "x%2f%41",
+		// bytes that only a query decoder would touch, a semicolon, raw and encoded non-ASCII
+		"a+b", "%2B", "a%2Bb", "+", "a;b", "\xc3\xa9", "%c3%a9x", "%7E~",
 	}
 	c03BadVals   = []string{"%zz", "%4", "a%", "%2"}
 	c03RuleMeths = []string{
@@ -572,10 +636,10 @@ var (
 	c03ReqHosts = []string{"a.com", "b.com", "c.org", "a.com:8080", "A.com"}
 	c03ParamTMs = []c03TM{
 		{"exact", "a"}, {"exact", "b"}, {"exact", "1"}, {"exact", "a/b"}, {"exact", "A"}, {"exact", "a b"}, {"exact", "[id]"},
-		{"exact", "a%2Fb"}, {"exact", "%41"}, {"exact", "x/A"}, {"exact", "b/c"},
+		{"exact", "a%2Fb"}, {"exact", "%41"}, {"exact", "x/A"}, {"exact", "b/c"}, {"exact", "a+b"}, {"exact", "a b"}, {"exact", "+"},
 		{"glob", "*"}, {"glob", "**"}, {"glob", "a*"}, {"glob", "[a-z]"}, {"glob", "{a,b,1}"}, {"glob", "?"}, {"glob", "*/*"},
 		{"regex", "^[a-z]+$"}, {"regex", "^a"}, {"regex", "/"}, {"regex", "^[^/]+$"}, {"regex", ".*"}, {"regex", "^A$"},
-		{"regex", "%"}, {"regex", "^(a|b|1)$"},
+		{"regex", "%"}, {"regex", "^(a|b|1)$"}, {"regex", `\+`}, {"regex", "^a$"}, {"glob", "a?b"},
 	}
 )
 
@@ -587,7 +651,12 @@ type c03Tok struct {
 func c03GenExpr(r *vf.Rand) []c03Tok {
 	var ts []c03Tok
 
-	for i, n := 0, r.Range(1, 3); i < n; i++ {
+	n := r.Range(1, 3)
+	if r.Chance(8) { // long expressions: more captures than the tree's initial capacity of 3
+		n = r.Range(4, 5)
+	}
+
+	for i := 0; i < n; i++ {
 		if r.Chance(55) {
 			ts = append(ts, c03Tok{0, vf.Pick(r, c03Lits[:6+r.Intn(len(c03Lits)-5)])})
 		} else {
@@ -705,7 +774,7 @@ func c03GenMethods(r *vf.Rand) []string {
 		}
 
 		return ms
-	case x < 70: // exclusions only
+	case x < 63: // exclusions only: a configuration error since the repair of C03-F4
 		ms := []string{"!" + vf.Pick(r, []string{"GET", "POST", "PUT"})}
 		if r.Bool() {
 			ms = append(ms, "!"+vf.Pick(r, []string{"GET", "POST", "TRACE"}))
@@ -723,6 +792,11 @@ func c03GenMethods(r *vf.Rand) []string {
 
 	for i, n := 0, r.Range(1, 5); i < n; i++ {
 		ms = append(ms, vf.Pick(r, pool))
+	}
+
+	if r.Chance(93) { // mostly with something the exclusions can be taken from
+		at := r.Intn(len(ms) + 1)
+		ms = append(ms[:at], append([]string{vf.Pick(r, []string{"ALL", "GET", "POST", "PUT", "HEAD"})}, ms[at:]...)...)
 	}
 
 	return ms
